@@ -5,7 +5,7 @@ set -e
 cd "$(dirname "$0")"
 export CARGO_NET_OFFLINE=true
 python3 tools/gen.py
-(cd lean && lake build 2>&1 | tail -3 && lake build Rrtk.Audit Rrtk.Thm.Lemmas.C17Snapshot $(ls Rrtk/Thm/C*.lean Rrtk/Thm/Ext/C*.lean 2>/dev/null | sed 's#/#.#g; s#\.lean$##') 2>&1 | tail -3)
+(cd lean && lake build 2>&1 | tail -3 && lake build Rrtk.Audit Rrtk.Thm.Lemmas.C17Snapshot Rrtk.Thm.Lemmas.C01Snapshot $(ls Rrtk/Thm/C*.lean Rrtk/Thm/Ext/C*.lean 2>/dev/null | sed 's#/#.#g; s#\.lean$##') 2>&1 | tail -3)
 (cd harness && RUSTFLAGS="--cfg rrtk_verif" cargo build --offline --quiet 2>&1 | tail -3
  for f in std,devices libm,devices libm,chk,devices; do
    RUSTFLAGS="--cfg rrtk_verif" cargo build --offline --quiet --no-default-features --features $f --target-dir target/cfg_$(echo $f | tr , _) 2>&1 | tail -3
